@@ -1,28 +1,10 @@
 import Afkak.Monitor.C16
 /-!
 # C16 — full-strength statements that are NOT proved (and why)
+
+None: every C16 statement — the state invariants and all nine trace monitors — is discharged in
+`AfkakProps/C16.lean` (`C16_fenced_trace`, `C16_join_after_drain`, `C16_one_join` and
+`C16_heartbeat_only_stable` moved there from this file).
 -/
 namespace Afkak.Props.C16.Open
-open Afkak.Group Afkak.Consts Afkak.Monitor.C16
-
-/-- Full strength: a JoinGroup request is issued only when no consumer is running OR DRAINING
-    (since fix 05f4891 `on_join_prepare` no longer proceeds while `stop()` drains its consumers).
-    The "running" half is `C16_join_no_running`. -/
-def C16_join_after_drain : Prop := ∀ (cfg : Cfg) (evs : List Ev), joinAfterDrain (toMSteps (run cfg evs)) = true
-
-/-- At most one join/sync request outstanding, as counted on the observed trace (requests, replies
-    and cancellations).  Proved at state level (`C16_one_join_coroutine`: the coroutine slot is
-    single and `_rejoin_d` guards it); the trace-level counting statement is not yet discharged. -/
-def C16_one_join : Prop := ∀ (cfg : Cfg) (evs : List Ev), oneJoin (toMSteps (run cfg evs)) = true
-
-/-- Heartbeats are sent only while a stable member, as judged from the observed trace alone.
-    Not yet discharged (the state-level facts are: a heartbeat is sent only when not stopping, no
-    rejoin wanted and none in flight — the guards of `_heartbeat`, checked by correspondence). -/
-def C16_heartbeat_only_stable : Prop := ∀ (cfg : Cfg) (evs : List Ev), heartbeatOnlyStable (toMSteps (run cfg evs)) = true
-
-/-- The fencing monitor on traces (assignment tracked from the sync replies).  Proved as a state
-    invariant (`C16_fenced`); the trace form needs the ghost "assignment of the last processed sync
-    reply = `St.asg`", not yet discharged. -/
-def C16_fenced_trace : Prop := ∀ (cfg : Cfg) (evs : List Ev), fenced (toMSteps (run cfg evs)) = true
-
 end Afkak.Props.C16.Open
